@@ -31,14 +31,17 @@ def on_repo_exception(case, e):
 
 
 def cases(modes):
-    def build(spec, seed, mode, split, off, mp, n):
+    def build(spec, seed, mode, split, off, mp, n, base, defn):
         spec = dict(spec)
+        if defn and mode == 'seed':
+            spec['defnames'] = True
         spec['T'] = [min(sum(spec['T']), 40)]
         spec.pop('trace', None)
-        return {'model': spec, 'seed': seed, 'mode': mode, 'split': split, 'id_offset': off, 'max_processes': mp, 'n': n}
+        return {'model': spec, 'seed': seed, 'mode': mode, 'split': split, 'id_offset': off if base is None else 0, 'max_processes': mp, 'n': n, 'id_base': base}
     return st.builds(build, e3gen.specs(MIX), st.integers(0, 10 ** 6), st.sampled_from(modes),
                      st.lists(st.sampled_from([0.25, 1, 2.5, 3, 7]), min_size=1, max_size=2),
-                     st.sampled_from([0, 1, 7, 1000, 10000]), st.sampled_from([1, 2, 5, None]), st.sampled_from([1, 2, 3]))
+                     st.sampled_from([0, 1, 7, 1000, 10000]), st.sampled_from([1, 2, 5, None]), st.sampled_from([1, 2, 3]),
+                     st.sampled_from([None] * 6 + [10 ** k - j for k in (1, 2, 3) for j in range(1, 9)]), st.booleans())
 
 
 def valid(case):
